@@ -1,0 +1,258 @@
+//! Verification hooks. Only compiled with the `getong_stateright_verif` cargo feature, which is
+//! off by default. Nothing in here changes the behaviour of the library: the module offers
+//!
+//! - a read-only facade over crate-private helpers (fingerprints, fingerprint paths, the job
+//!   market),
+//! - an event sink to which the job market reports what it does while holding its own lock,
+//! - perturbation points ("yield points") at which an installed callback may delay the calling
+//!   thread, and
+//! - an override for the number of states a checker worker evaluates before it shares work.
+
+use crate::job_market::JobBroker;
+use crate::{Model, Path};
+use std::collections::VecDeque;
+use std::hash::Hash;
+use std::sync::atomic::{AtomicU64, AtomicUsize, Ordering};
+use std::sync::{Arc, RwLock};
+use std::time::SystemTime;
+
+/// Fingerprint of a value exactly as the checkers compute it.
+pub fn fingerprint_of<T: Hash>(value: &T) -> u64 {
+    crate::fingerprint(value).get()
+}
+
+fn to_fingerprints(fingerprints: &[u64]) -> Option<VecDeque<crate::Fingerprint>> {
+    fingerprints
+        .iter()
+        .map(|fp| crate::Fingerprint::new(*fp))
+        .collect()
+}
+
+/// `Path::from_fingerprints` (crate-private). Panics like the original for paths that cannot be
+/// reconstructed; returns `None` if a fingerprint is zero.
+pub fn path_from_fingerprints<M>(
+    model: &M,
+    fingerprints: &[u64],
+) -> Option<Path<M::State, M::Action>>
+where
+    M: Model,
+    M::State: Hash,
+{
+    to_fingerprints(fingerprints).map(|fps| Path::from_fingerprints(model, fps))
+}
+
+/// `Path::final_state` (crate-private).
+pub fn path_final_state<M>(model: &M, fingerprints: &[u64]) -> Option<M::State>
+where
+    M: Model,
+    M::State: Hash,
+{
+    to_fingerprints(fingerprints).and_then(|fps| Path::final_state(model, fps))
+}
+
+// ---------------------------------------------------------------------------------------------
+// Event sink.
+
+/// What the job market did. Every variant is emitted while the market lock is held, so the order
+/// in which a sink sees the events of one market is the order in which they took effect.
+#[derive(Clone, Debug, PartialEq, Eq, Hash)]
+pub enum MarketEventKind {
+    /// A market was created.
+    New { thread_count: usize, timeout: bool },
+    /// `pop` found the market closed on entry and returns an empty batch.
+    PopClosed,
+    /// `pop` hands out a batch of the given length; `remaining` batches stay in the market.
+    PopGot { len: usize, remaining: usize },
+    /// `pop` found no batch, was the last active worker, closes the market and returns empty.
+    PopCloseLast,
+    /// `pop` found no batch and is about to wait; `open_count` is the value after decrementing.
+    PopWait { open_count: usize },
+    /// `pop` woke up from waiting; `open_count` is the value after incrementing.
+    PopWoke { open_count: usize, open: bool },
+    /// `push` ignored because the market is closed.
+    PushClosed { len: usize },
+    /// `push` of a batch.
+    Push { len: usize },
+    /// `split_and_push` on a closed market cleared the caller's queue.
+    SplitClosed { cleared: usize },
+    /// `split_and_push` shared the batches with the given lengths and kept `kept` jobs.
+    Split {
+        before: usize,
+        pieces: usize,
+        shared: Vec<usize>,
+        kept: usize,
+        open_count: usize,
+    },
+    /// A broker clone was dropped; the market is now closed, `discarded` batches were cleared.
+    Drop {
+        was_open: bool,
+        discarded: Vec<usize>,
+        open_count: usize,
+    },
+    /// The timeout thread looked at the clock.
+    TimeoutTick { expired: bool, open: bool },
+}
+
+/// An event together with its origin.
+#[derive(Clone, Debug, PartialEq, Eq, Hash)]
+pub struct MarketEvent {
+    /// Identifies the market (stable for its lifetime, unique among live markets).
+    pub market: usize,
+    /// Small integer identifying the emitting OS thread.
+    pub thread: u64,
+    pub kind: MarketEventKind,
+}
+
+type Sink = Arc<dyn Fn(MarketEvent) + Send + Sync>;
+static SINK: RwLock<Option<Sink>> = RwLock::new(None);
+static SINK_INSTALLED: AtomicUsize = AtomicUsize::new(0);
+
+/// Installs (or removes) the global event sink.
+pub fn set_sink(sink: Option<Sink>) {
+    let mut guard = SINK.write().unwrap_or_else(|e| e.into_inner());
+    SINK_INSTALLED.store(usize::from(sink.is_some()), Ordering::SeqCst);
+    *guard = sink;
+}
+
+static NEXT_THREAD: AtomicU64 = AtomicU64::new(1);
+thread_local!(static THREAD_NO: u64 = NEXT_THREAD.fetch_add(1, Ordering::Relaxed));
+
+/// Small integer identifying the calling OS thread (as used in [`MarketEvent::thread`]).
+pub fn thread_no() -> u64 {
+    THREAD_NO.with(|t| *t)
+}
+
+pub(crate) fn emit(market: usize, kind: impl FnOnce() -> MarketEventKind) {
+    if SINK_INSTALLED.load(Ordering::Relaxed) == 0 {
+        return;
+    }
+    let sink = SINK.read().unwrap_or_else(|e| e.into_inner()).clone();
+    if let Some(sink) = sink {
+        sink(MarketEvent {
+            market,
+            thread: thread_no(),
+            kind: kind(),
+        });
+    }
+}
+
+// ---------------------------------------------------------------------------------------------
+// Perturbation points.
+
+type Perturber = Arc<dyn Fn(&'static str) + Send + Sync>;
+static PERTURBER: RwLock<Option<Perturber>> = RwLock::new(None);
+static PERTURBER_INSTALLED: AtomicUsize = AtomicUsize::new(0);
+
+/// Installs (or removes) the callback invoked at every yield point. Yield points are only placed
+/// where a thread could be preempted anyway and never inside the market's critical sections.
+pub fn set_perturber(perturber: Option<Perturber>) {
+    let mut guard = PERTURBER.write().unwrap_or_else(|e| e.into_inner());
+    PERTURBER_INSTALLED.store(usize::from(perturber.is_some()), Ordering::SeqCst);
+    *guard = perturber;
+}
+
+#[inline]
+pub(crate) fn yield_point(site: &'static str) {
+    if PERTURBER_INSTALLED.load(Ordering::Relaxed) == 0 {
+        return;
+    }
+    let perturber = PERTURBER.read().unwrap_or_else(|e| e.into_inner()).clone();
+    if let Some(perturber) = perturber {
+        perturber(site);
+    }
+}
+
+// ---------------------------------------------------------------------------------------------
+// Block size override.
+
+static BLOCK_SIZE: AtomicUsize = AtomicUsize::new(0);
+
+/// Overrides the number of states a worker evaluates per block (0 restores the default). Small
+/// values make small models exercise the work-sharing paths.
+pub fn set_block_size(size: usize) {
+    BLOCK_SIZE.store(size, Ordering::SeqCst);
+}
+
+#[inline]
+pub(crate) fn block_size(default: usize) -> usize {
+    match BLOCK_SIZE.load(Ordering::Relaxed) {
+        0 => default,
+        n => n,
+    }
+}
+
+// ---------------------------------------------------------------------------------------------
+// Market snapshots (hang diagnosis) and a public facade over the job market.
+
+/// Momentary contents of a job market.
+#[derive(Clone, Debug, PartialEq, Eq)]
+pub struct MarketSnapshot {
+    pub market: usize,
+    pub open: bool,
+    pub thread_count: usize,
+    pub open_count: usize,
+    pub batch_lens: Vec<usize>,
+}
+
+/// Why a snapshot could not be taken.
+#[derive(Clone, Copy, Debug, PartialEq, Eq)]
+pub enum NoSnapshot {
+    /// The market no longer exists.
+    Gone,
+    /// The market lock could not be taken within 100 ms.
+    Busy,
+}
+
+// The argument says whether to only probe for liveness (never takes the lock; a live market
+// answers `Err(Busy)`).
+type Snapshotter = Box<dyn Fn(bool) -> Result<MarketSnapshot, NoSnapshot> + Send + Sync>;
+static MARKETS: RwLock<Vec<(usize, Snapshotter)>> = RwLock::new(Vec::new());
+
+pub(crate) fn register_market(id: usize, snapshotter: Snapshotter) {
+    let mut markets = MARKETS.write().unwrap_or_else(|e| e.into_inner());
+    markets.retain(|(_, snapshotter)| snapshotter(true) != Err(NoSnapshot::Gone));
+    markets.push((id, snapshotter));
+}
+
+/// Snapshots of all live markets (`Err(Busy)` for markets whose lock could not be taken).
+pub fn market_snapshots() -> Vec<(usize, Result<MarketSnapshot, NoSnapshot>)> {
+    let markets = MARKETS.read().unwrap_or_else(|e| e.into_inner());
+    markets
+        .iter()
+        .map(|(id, snapshotter)| (*id, snapshotter(false)))
+        .filter(|(_, snapshot)| *snapshot != Err(NoSnapshot::Gone))
+        .collect()
+}
+
+/// Public facade over the crate-private job market so that it can be driven directly.
+pub struct Broker<Job>(JobBroker<Job>);
+
+impl<Job> Clone for Broker<Job> {
+    fn clone(&self) -> Self {
+        Broker(self.0.clone())
+    }
+}
+
+impl<Job: Send + 'static> Broker<Job> {
+    pub fn new(thread_count: usize, close_at: Option<SystemTime>) -> Self {
+        Broker(JobBroker::new(thread_count, close_at))
+    }
+}
+
+impl<Job> Broker<Job> {
+    pub fn pop(&mut self) -> VecDeque<Job> {
+        self.0.pop()
+    }
+    pub fn push(&mut self, jobs: VecDeque<Job>) {
+        self.0.push(jobs)
+    }
+    pub fn split_and_push(&mut self, jobs: &mut VecDeque<Job>) {
+        self.0.split_and_push(jobs)
+    }
+    pub fn is_closed(&self) -> bool {
+        self.0.is_closed()
+    }
+    pub fn id(&self) -> usize {
+        self.0.verif_id()
+    }
+}
